@@ -1,12 +1,92 @@
 /-
-Driver operations for the ImpExp model (line protocol). Core Lean only.
+Driver operations for the ImpExp model (C17; line protocol). Core Lean only.
 `handle st words` returns `none` when the first word is not one of this module's operations.
+
+  ireset                                   source store := [genesis], table := []
+  iadd <hex160>                            Chains.Add on the source store (same answer line as `add`)
+  iexport                                  the CSV records of the export (first the column-name line); cells joined by ',',
+                                           records by ' '
+  iuse                                     table := source store (a database that already holds headers)
+  iimport <batch> <cp-height> <cp-hash> <records…>   start-up with prepared_db on an EMPTY table
+  istart  <batch> <cp-height> <cp-hash> <records…>   start-up with prepared_db on the table left by the previous op
+                                           (`- -` = config.Checkpoints empty; the single record `!unreadable` = file
+                                           missing / bad gzip; no record at all = empty file)
+        →  ok <n> <rows> <digest> | skipped <rows> <digest> | refused:<why> <rows> <digest> | panic <rows> <digest>
+           | outside <row index>
+  idump                                    the table, rows as in `dump`
 -/
+import BHS.Model.ImpExp
+import Driver.Ops.Chain
+
 namespace Driver.Ops.ImpExp
+open BHS BHS.Chain BHS.Header BHS.ImpExp
 
 structure S where
-  unit : Unit := ()
+  src : Store String := [genesisRow]
+  table : Store String := []
 
-def handle (_st : S) (_ws : List String) : Option (S × String) := none
+def cfg : Cfg String := { hashOf := blockHash, forbidden := [] }
+
+def recStr (r : Record) : String := ",".intercalate (r.map String.ofList)
+
+def parseRec (tok : String) : Record := (tok.splitOn ",").map String.toList
+
+def parseFile (toks : List String) : Option (List Record) :=
+  if toks = ["!unreadable"] then none else some (toks.map parseRec)
+
+def errName : RowErr → String
+  | .fieldCount => "fieldcount"
+  | .recordLength => "recordlength"
+  | .version => "version"
+  | .merkle => "merkleroot"
+  | .nonce => "nonce"
+  | .bits => "bits"
+  | .timestamp => "timestamp"
+
+def refusalName : Refusal → String
+  | .unreadable => "unreadable"
+  | .noHeaderLine => "noheader"
+  | .row i e => s!"row:{i}:{errName e}"
+  | .count => "count"
+  | .maxHeight => "maxheight"
+  | .heights => "heights"
+  | .checkpointAbsent => "cp-absent"
+  | .checkpointMismatch => "cp-mismatch"
+
+def dumpStr (t : Store String) : String := ";".intercalate (t.map Chain.rowStr)
+
+def digest (t : Store String) : String := BHS.Sha256.toHex (BHS.Sha256.sha256 (dumpStr t).toUTF8.toList)
+
+def resStr (t : Store String) : StartRes → String
+  | .skipped => s!"skipped {t.length} {digest t}"
+  | .imported n => s!"ok {n} {t.length} {digest t}"
+  | .refused e => s!"refused:{refusalName e} {t.length} {digest t}"
+  | .panicked => s!"panic {t.length} {digest t}"
+  | .outside i => s!"outside {i}"
+
+def parseCps (h hash : String) : Option (List (Nat × String)) :=
+  if h = "-" then some [] else (fun k => [(k, hash)]) <$> h.toNat?
+
+def doStart (st : S) (tbl : Store String) (bs cph cphash : String) (toks : List String) : Option (S × String) :=
+  match bs.toNat?, parseCps cph cphash with
+  | some bs, some cps =>
+    let r := start cfg strCodec bs cps tbl (parseFile toks)
+    some ({ st with table := r.1 }, resStr r.1 r.2)
+  | _, _ => some (st, "bad-args")
+
+def handle (st : S) : List String → Option (S × String)
+  | ["ireset"] => some ({ src := [genesisRow], table := [] }, "ok")
+  | ["iadd", hex] =>
+    match Chain.parseHeader hex with
+    | none => some (st, "bad-header")
+    | some x =>
+      let p := plan cfg st.src x
+      some ({ st with src := applyWrites st.src p.2 }, " | ".intercalate (Chain.outcomeStr p.1 :: p.2.map Chain.writeStr))
+  | ["iexport"] => some (st, " ".intercalate ((exportFile strCodec st.src).map recStr))
+  | ["iuse"] => some ({ st with table := st.src }, s!"ok {st.src.length}")
+  | "iimport" :: bs :: cph :: cphash :: toks => doStart st [] bs cph cphash toks
+  | "istart" :: bs :: cph :: cphash :: toks => doStart st st.table bs cph cphash toks
+  | ["idump"] => some (st, dumpStr st.table)
+  | _ => none
 
 end Driver.Ops.ImpExp
